@@ -985,3 +985,43 @@ Definition resolve6_ctx_opt (v : variant) (r : option rstate) (s : sid) (cx : sc
       | _, _ => None
       end
   end.
+
+(* ---------------------------------------------------------------- allocator.NewContext: AAA attributes -> context *)
+(* aaaAttrs is a map[string]interface{}: an attribute is absent, present with a non-string value (ignored),
+   or a string.  Address strings are given by the address they spell (None: not an address / not a CIDR). *)
+Inductive aval (A : Type) := AvAbsent | AvNotString | AvStr (x : A).
+Arguments AvAbsent {A}. Arguments AvNotString {A}. Arguments AvStr {A} x.
+Definition av_str {A} (d : A) (v : aval A) : A := match v with AvStr x => x | _ => d end.
+
+(* net.ParseIP returns the 16-byte form: an IPv4 literal becomes ::ffff:a.b.c.d *)
+Definition go_parse_ip (a : addr) : addr :=
+  match a with (V4, n) => (V6, 281470681743360 + n) | _ => a end.
+(* net.ParseCIDR(s): the network (address masked to the prefix length) and net.CIDRMask(len, 32 | 128) *)
+Definition go_parse_cidr (a : addr) (len : N) : option pfx :=
+  let w := fam_width (fst a) in
+  if N.ltb w len then None
+  else let m := N.pow 2 (w - len) in Some (Pfx (Some (fst a, (snd a / m) * m)) len w).
+
+Record aaa4 := { at_v4 : aval (option addr);          (* "ipv4_address" *)
+                 at_pool : aval N }.                   (* "pool": override name, 0 = "" *)
+Record aaa6 := { at_v6 : aval (option addr);          (* "ipv6_address" *)
+                 at_pd : aval (option (addr * N));    (* "ipv6_prefix": address and length of the CIDR text *)
+                 at_napool : aval N; at_pdpool : aval N }.   (* "iana_pool", "pd_pool" *)
+
+(* the IPv4 attributes are read only when the session has an IPv4 profile (profileName != ""), the IPv6
+   ones only with an IPv6 profile; an unparseable or non-string address attribute leaves the field nil,
+   so the address is then drawn from the pools *)
+Definition new_context4 (pf vrf : N) (at4 : aaa4) : sctx4 :=
+  if N.eqb pf 0
+  then {| c4_pf := pf; c4_ov := 0; c4_vrf := vrf; c4_addr := None; c4_pool := None |}
+  else {| c4_pf := pf; c4_ov := av_str 0 (at_pool at4); c4_vrf := vrf;
+          c4_addr := match av_str None (at_v4 at4) with Some a => Some (go_parse_ip a) | None => None end;
+          c4_pool := None |}.
+Definition new_context6 (pf vrf : N) (at6 : aaa6) : sctx6 :=
+  if N.eqb pf 0
+  then {| c6_pf := pf; c6_naov := 0; c6_pdov := 0; c6_vrf := vrf; c6_na := None; c6_pd := None;
+          c6_napool := None; c6_pdpool := None |}
+  else {| c6_pf := pf; c6_naov := av_str 0 (at_napool at6); c6_pdov := av_str 0 (at_pdpool at6); c6_vrf := vrf;
+          c6_na := match av_str None (at_v6 at6) with Some a => Some (go_parse_ip a) | None => None end;
+          c6_pd := match av_str None (at_pd at6) with Some (a, len) => go_parse_cidr a len | None => None end;
+          c6_napool := None; c6_pdpool := None |}.
